@@ -14,7 +14,7 @@ import dates as D   # noqa: E402
 from parallel import driver_parallel  # noqa: E402
 
 GEN = ['DateK', 'Calendar', 'DateLogic', 'DayCount']
-PROPS = ['FinVerif.Props.C15', 'FinVerif.Props.C15b', 'FinVerif.Props.C15c']
+PROPS = ['FinVerif.Props.C15', 'FinVerif.Props.C15b', 'FinVerif.Props.C15c', 'FinVerif.Props.C15d']
 DRIVERS = ['FinVerif.Driver.C15']
 SPEC_DRIVERS = ['FinVerif.Driver.C15Spec']
 
